@@ -101,11 +101,10 @@ class PrintStatementRule(MultiLanguageLintRule):  # thailint: ignore[srp]
 
         metadata = context.metadata
 
-        if "print_statements" in metadata:
-            return load_linter_config(context, "print_statements", PrintStatementConfig)
-
-        if "print-statements" in metadata:
-            return load_linter_config(context, "print-statements", PrintStatementConfig)
+        # The documented section name, then the name the linter had before
+        for key in ("improper_logging", "improper-logging", "print_statements", "print-statements"):
+            if key in metadata:
+                return load_linter_config(context, key, PrintStatementConfig)
 
         return None
 
